@@ -1,6 +1,6 @@
 """Per-property check definitions and the common check driver."""
 import json, os, random, sys, time
-import vlib, gen
+import vlib, gen, gen_dispatch
 from vlib import log, ROOT
 
 TRUSTED = [
@@ -49,6 +49,11 @@ reg(Prop('C07', [g(gen.gen_C07)], 'positions and seeks'))
 reg(Prop('C08', [g(gen.gen_C08)], 'bulk copies with continuations'))
 reg(Prop('C09', [g(gen.gen_C09)], 'truncated strict streams vs zero-extended'))
 reg(Prop('C12', [g(gen.gen_C12)], 'io::Read / io::Write views'))
+reg(Prop('C10', [lambda rng, tier, ctx: gen_dispatch.gen_C10(rng, tier)],
+         'every dispatcher (Codes, ConstCode, function pointers, factory, statistics wrapper) vs the arms selected through '
+         'the generated lists and vs the code\'s own method: bytes, values, positions, lengths'))
+reg(Prop('C16', [lambda rng, tier, ctx: gen_dispatch.gen_C16(rng, tier)],
+         'Display / FromStr / to_code_const / from_code_const / PartialEq vs the generated lists and vs hand-written expectations'))
 reg(Prop('C11', [g(gen.gen_C11)], 'WordAdapter over fault-injecting Read/Write objects and Cursor'))
 reg(Prop('C13', [g(gen.gen_C13)], 'in-memory word streams vs array+cursor'))
 reg(Prop('C14', [g(gen.gen_C14)], 'counting / tracing wrappers vs bare streams'))
